@@ -26,6 +26,7 @@ META = {
 META['level_text'] += " Structural clauses of the expansion pipeline (S1-S7, tmv/rules/c13s.py) are decided in addition: build_combinations stores each alias's ordinal among the aliases and the number of its definitions; from_modifiers and reify_modifiers pick, for the j-th alias, the definition chosen by the j-th digit of the combination (output side through alias_map); translate_single_to_keys appends the terminal after the reified modifiers; convert appends every produced mapping once, in source order, indexed by its position, then applies repeat-only entries; convert_single emits exactly one mapping per combination with from/to/repeat/absorbing built from that combination; alias definitions are collected in source order."
 META["level_note"] = "NOT decided: that the composition of these per-function clauses is the hand-written expansion for every layout is an argument on paper (the product iterator MultiplyIter is trusted to enumerate every digit vector once, in odometer order); adjust_repeats' lookup-by-trigger-set and convert_row's per-letter loop are covered only by the table clauses. Trusted: the oracle transcription (oracles/us_qwerty.json), rustc MIR/HIR, tmfacts."
 META["technique"] += "; MIR path rules for the per-function clauses of the alias/row expansion pipeline (index provenance, iteration order, one-mapping-per-combination)"
+META['level_text'] += " S5 also: every produced mapping's position is ADDED to the list kept under FromSet(its from) (get_mut/insert or entry API), so repeat-only entries reach every mapping with that key set."
 # --- end additions
 
 CAM = "char_production_map::_char_access_map"
